@@ -8,7 +8,7 @@ SHARD = 60
 def driver_args(tier, seed, phase):
     a = []
     if phase == "search":
-        a += ["-n", "1500" if tier == "quick" else "20000"]
+        a += ["-n", "300" if tier == "quick" else "6000"]
     return a
 
 
